@@ -159,8 +159,9 @@ Program gen_program(uint64_t seed, const GenParams &gp, const std::string &profi
     Program p; p.seed = seed; p.cfg.profile = profile;
     uint64_t sd = seed ^ 0x5bd1e995; Rng rng(Rng::splitmix(sd));
     gen_config(rng, p, gp);
+    if (gp.nonblocking && rng.chance(0.1)) p.cfg.flags |= 1;   // strict checking of overlapping iget requests
     int np = p.cfg.sim.nprocs;
-    Model gm; gm.init(np, gp.multi_file ? 3 : 1); gm.cur_ops = &p.ops;
+    Model gm; gm.init(np, gp.multi_file ? 3 : 1); gm.cur_ops = &p.ops; gm.strict_iget_overlap = (p.cfg.flags & 1) != 0;
     auto it = p.cfg.sim.env.find("PNETCDF_RELAX_COORD_BOUND"); gm.strict_coord = (it != p.cfg.sim.env.end() && it->second == "0");
     auto emit = [&](Op op) -> bool { p.ops.push_back(op); gm.cur_ops = &p.ops; bool ok = model_step(gm, p.ops.back()); if (!ok) { p.ops.pop_back(); gm.opidx--; } return ok; };
     auto checkpoint = [&]() { Op o; o.kind = OP_CHECKPOINT; emit(o); };
@@ -241,7 +242,7 @@ Program gen_program(uint64_t seed, const GenParams &gp, const std::string &profi
                 else if (y < 0.92) {
                     o.kind = OP_WAIT; o.coll = !indep; o.waits.resize(np);
                     for (int r = 0; r < np; r++) { WaitSpec &w = o.waits[r]; w.mode = rng.chance(0.45) ? 1 + (int)rng.below(3) : 0; if (rng.chance(0.1)) w.active = false;
-                        if (w.mode == 0) { int n = (int)rng.range(0, 5); for (int i = 0; i < n; i++) w.slots.push_back(rng.chance(0.08) ? -1 : (int)rng.below(12)); } }
+                        if (w.mode == 0) { int n = (int)rng.range(0, 5); for (int i = 0; i < n; i++) w.slots.push_back(rng.chance(0.08) ? -1 : (int)rng.below(12)); if (rng.chance(0.04)) { w.slots.assign(1 + rng.below(2), -2); } } }
                     if (emit(o)) { pending = 0; if (rng.chance(0.7)) { Op s; s.kind = OP_SYNCPOINT; s.file = fi; emit(s); } }
                 } else { o.kind = OP_CANCEL; o.waits.resize(np); for (int r = 0; r < np; r++) { WaitSpec &w = o.waits[r]; w.mode = rng.chance(0.3) ? 1 : 0; int n = (int)rng.range(0, 3); for (int i = 0; i < n; i++) w.slots.push_back((int)rng.below(12)); } emit(o); }
             } else if (x < 0.95 && gp.redef) {
